@@ -55,6 +55,11 @@ type c20SoloReq struct {
 	N     int    `json:"n"`
 	Win   int    `json:"win"`
 	Keyed bool   `json:"keyed"`
+	// typed-bridge family (c20c.go): Fam = "typed", rows from c20TRows(seed, inst, n, Typ, Cols)
+	Fam  string   `json:"fam,omitempty"`
+	Typ  string   `json:"typ,omitempty"`
+	Cols []string `json:"cols,omitempty"`
+	Sync bool     `json:"sync,omitempty"`
 }
 
 // rows of instance inst: a function of (seed, inst) only, so that parent and child build the same rows
@@ -199,6 +204,14 @@ func runC20Solo(tier string, seed uint64, o *Out) error {
 	if err != nil {
 		return err
 	}
+	if rq.Fam == "typed" {
+		res, err := c20TRun([]string{rq.Sql}, [][]map[string]any{c20TRows(rs, rq.Inst, rq.N, rq.Typ, rq.Cols)}, nil, false, rq.Sync, rq.Win)
+		if err != nil {
+			return err
+		}
+		o.Line("%s", res[0])
+		return nil
+	}
 	rows := c20FRows(rs, rq.Inst, rq.N)
 	res, err := c20FRun([]string{rq.Sql}, [][]map[string]any{rows}, nil, false, rq.Win, rq.Keyed)
 	if err != nil {
@@ -266,11 +279,11 @@ func c20RunF(rng *RNG, p c20FSpec, mode string, o *Out) error {
 	}
 	ca, cb := make(chan sr, 1), make(chan sr, 1)
 	go func() {
-		s, err := c20SoloFresh(c20SoloReq{p.SqlA, strconv.FormatUint(rs, 10), 0, p.N, p.Win, p.Keyed})
+		s, err := c20SoloFresh(c20SoloReq{Sql: p.SqlA, Seed: strconv.FormatUint(rs, 10), Inst: 0, N: p.N, Win: p.Win, Keyed: p.Keyed})
 		ca <- sr{s, err}
 	}()
 	go func() {
-		s, err := c20SoloFresh(c20SoloReq{p.SqlB, strconv.FormatUint(rs, 10), 1, p.N, p.Win, p.Keyed})
+		s, err := c20SoloFresh(c20SoloReq{Sql: p.SqlB, Seed: strconv.FormatUint(rs, 10), Inst: 1, N: p.N, Win: p.Win, Keyed: p.Keyed})
 		cb <- sr{s, err}
 	}()
 	soloA, soloB := <-ca, <-cb
